@@ -60,6 +60,25 @@ def check_declared_width(prog: Program, res: Result, rule: str) -> None:
     p_rets = [s for s in body_walk(p.node) if isinstance(s, ast.Return) and s.value is not None]
     pack_refuses = bool(p_rets) and all((f_ := pcp.truth(r_, _is_u8)) is not None and _rej(pcp, f_) is not None for r_ in p_rets)
     params = [x for x in cw.params if x != "self"]
+
+    def how_of(v: ast.AST, conv: dict) -> str | None:
+        """How the array denoted by v is known to have the declared sample type (None: it may still be the caller's dtype)."""
+        if isinstance(v, ast.Name):
+            return conv.get(v.id)
+        if isinstance(v, ast.Call):
+            d = dotted(v.func) or ""
+            if isinstance(v.func, ast.Attribute) and v.func.attr == "astype" and v.args and _is_declared_dtype(v.args[0]):
+                return "astype(declared dtype)"
+            if d.endswith(".quantize") and q_ok:
+                return "quantize() -> astype(declared dtype)"
+            if d.split(".")[-1] == "pack" and pack_refuses:
+                return "pack() (uint8 in, refuses anything else)"
+            if d in ("np.asarray", "np.ascontiguousarray", "np.array") and any(k.arg == "dtype" and _is_declared_dtype(k.value) for k in v.keywords):
+                return "asarray(dtype=declared dtype)"
+            if d in ("np.asarray", "np.ascontiguousarray", "np.asanyarray") and len(v.args) == 1 and not v.keywords:
+                return how_of(v.args[0], conv)   # no conversion: as good as its argument
+        return None
+
     for t in tofiles:
         recv = t.func.value
         tn = cfg.node_for(t)
@@ -72,20 +91,7 @@ def check_declared_width(prog: Program, res: Result, rule: str) -> None:
                 if cfg.kind[n] == "stmt" and isinstance(st, ast.Assign) and len(st.targets) == 1 and isinstance(st.targets[0], ast.Name):
                     v = st.value
                     tgt = st.targets[0].id
-                    how = None
-                    if isinstance(v, ast.Call):
-                        d = dotted(v.func) or ""
-                        if isinstance(v.func, ast.Attribute) and v.func.attr == "astype" and v.args and _is_declared_dtype(v.args[0]):
-                            how = "astype(declared dtype)"
-                        elif d.endswith(".quantize") and q_ok:
-                            how = "quantize() -> astype(declared dtype)"
-                        elif d.split(".")[-1] == "pack" and pack_refuses:
-                            how = "pack() (uint8 in, refuses anything else)"
-                        elif d in ("np.asarray", "np.ascontiguousarray", "np.array") and any(
-                                k.arg == "dtype" and _is_declared_dtype(k.value) for k in v.keywords):
-                            how = "asarray(dtype=declared dtype)"
-                    if how is None and isinstance(v, ast.Name):
-                        how = conv.get(v.id)
+                    how = how_of(v, conv)
                     conv[tgt] = how
             # dtype-equality guard that raises, passed on this path
             for n in path:
@@ -96,10 +102,7 @@ def check_declared_width(prog: Program, res: Result, rule: str) -> None:
                     for x in ast.walk(st.test):
                         if isinstance(x, ast.Name):
                             conv[x.id] = "dtype guard raises on mismatch"
-            name = recv.id if isinstance(recv, ast.Name) else None
-            inline = isinstance(recv, ast.Call) and isinstance(recv.func, ast.Attribute) and recv.func.attr == "astype" \
-                and recv.args and _is_declared_dtype(recv.args[0])
-            if not inline and (name is None or conv.get(name) is None):
+            if how_of(recv, conv) is None:
                 bad_path = path
                 break
         if bad_path is None:
